@@ -189,6 +189,14 @@ func VerifC08() {
 	for _, r := range roots {
 		addNode(r)
 	}
+	if !byteLevel && nx == 0 && verifFlag("strayTop") {
+		// an entry of the target directory that belongs to no root: none of Verify's business, strict or not
+		stray := verifName("stray")
+		for _, r := range roots {
+			verifAssume(stray != nodes[r].name)
+		}
+		vfsAdd([]string{stray}, int(verifChoose("strayKind", 1, 2)))
+	}
 	if present[roots[0]] && !isFile[roots[0]] && !byteLevel && verifFlag("rootLink") {
 		// the first root is a symbolic link to a directory (which holds everything listed beneath it): it exists, and
 		// so does what is beneath it
